@@ -35,7 +35,18 @@ let load_tag (s : M.cache_state) n exp has_alt =
   entry ^ "/" ^ cfg ^ "/" ^ out ^ (if has_alt then "/text-open" else "")
 
 (* run the model over a history and write the case *)
-let emit_history oc r ~stream ~chain (ops : M.cache_op list) =
+let emit_history ?how oc r ~stream ~chain (ops : M.cache_op list) =
+  (* how a source id is registered: forced for the fixed histories, otherwise random but mostly the same way
+     again when the same id is registered again (the runner then passes the same *Template value) *)
+  let how_of : (int, string) Hashtbl.t = Hashtbl.create 8 in
+  let choose_how src =
+    match how with
+    | Some h -> h
+    | None ->
+      let h = match Hashtbl.find_opt how_of src with
+        | Some h when rint r 4 <> 0 -> h
+        | _ -> pick r hows in
+      Hashtbl.replace how_of src h; h in
   let sd = ref (M.cache_init, []) in
   let k = ref 0 in
   let loads = Hashtbl.create 8 in      (* name -> index of the last Load of it *)
@@ -56,7 +67,13 @@ let emit_history oc r ~stream ~chain (ops : M.cache_op list) =
       | M.CSetAutoReload b -> lastchange := !k; [ "op", JS "setautoreload"; "b", JB b ]
       | M.CSetDevMode b -> lastchange := !k; [ "op", JS "setdevmode"; "b", JB b ]
       | M.CRegister (n, src) -> lastchange := !k;
-          [ "op", JS "register"; "n", JI (int_of_n n); "src", JI (int_of_n src); "how", JS (pick r hows); "exp", obs_json ob ]
+          let rtag = match M.cache_lookup s.M.cs_cache n with
+            | Some e when e.M.ce_src = src ->
+                (match e.M.ce_loader with None -> "identical-to-held-registration" | Some _ -> "identical-to-held-loader-entry")
+            | _ ->
+                if List.exists (fun ld -> match M.cache_lookup ld.M.cl_files n with Some (x, _) -> x = src | None -> false) s.M.cs_loaders
+                then "identical-to-a-loader-file" else "other" in
+          [ "op", JS "register"; "n", JI (int_of_n n); "src", JI (int_of_n src); "how", JS (choose_how (int_of_n src)); "rtag", JS rtag; "exp", obs_json ob ]
       | M.CLoad n ->
           let allowed = M.cache_allowed s d n in
           if not (List.mem ob allowed) then (prerr_endline "c15: model observation outside cache_allowed"; exit 3);
@@ -108,6 +125,21 @@ let fixed : (bool * M.cache_op list) list = [
            M.CSetCache false; load 0; del 0 0; load 0 ];
   true, [ M.CAddLoader false; M.CAddLoader false; put 1 0 1 None; load 0; put 0 0 2 None; load 0; M.CSetCache false; load 0; load 0;
           del 0 0; load 0; del 1 0; load 0; M.CAddLoader false; put 2 0 3 None; load 0 ];
+  (* a registration of exactly the text the engine holds from a loader still pins the name *)
+  false, [ M.CAddLoader true; put 0 0 1 (zz 10); load 0; reg 0 1; put 0 0 2 (zz 11); M.CSetCache false; load 0; M.CSetCache true; load 0 ];
+  false, [ M.CAddLoader true; put 0 0 1 (zz 10); load 0; reg 0 1; put 0 0 2 (zz 11); M.CSetDevMode true; load 0; load 0 ];
+  false, [ M.CAddLoader true; put 0 0 1 (zz 10); M.CSetAutoReload true; load 0; reg 0 1; put 0 0 2 (zz 11); load 0; del 0 0; load 0 ];
+  false, [ M.CAddLoader true; put 0 0 1 (zz 10); load 0; reg 0 1; M.CSetCache false; load 0; del 0 0; load 0 ];
+  (* the same source registered again, under the same and under another name; A, B, A again *)
+  false, [ reg 0 1; reg 0 1; load 0; reg 1 1; load 1; reg 0 2; load 0; reg 0 1; load 0; load 1; reg 1 2; load 1; load 0 ];
+  false, [ M.CAddLoader true; put 0 0 1 (zz 3); put 0 1 2 (zz 3); M.CSetCache false; load 0; load 1; load 0; reg 0 2; load 0; load 1; reg 1 1; load 1; load 0 ];
+  (* a reload goes through all loaders in registration order, not to the loader of the entry first *)
+  false, [ M.CAddLoader true; M.CAddLoader true; put 1 0 1 (zz 10); M.CSetAutoReload true; load 0; put 0 0 2 (zz 5); put 1 0 3 (zz 11); load 0; load 0 ];
+  false, [ M.CAddLoader true; M.CAddLoader true; M.CAddLoader true; put 2 1 1 (zz 10); M.CSetAutoReload true; load 1; put 1 1 2 (zz 50); put 2 1 3 None; load 1;
+           put 0 1 5 (zz 1); put 1 1 6 (zz 51); load 1 ];
+  (* A, B, A again under one name; the same value under two names alternately *)
+  false, [ reg 0 1; load 0; reg 0 2; load 0; reg 0 1; load 0; reg 0 2; reg 0 1; load 0 ];
+  false, [ reg 0 1; reg 1 1; reg 0 2; reg 1 2; reg 0 1; load 0; load 1; reg 1 1; load 1; load 0 ];
   (* caching switched off and on again *)
   false, [ M.CAddLoader true; put 0 0 1 (zz 10); load 0; M.CSetCache false; put 0 0 2 (zz 10); load 0; M.CSetCache true; load 0;
            M.CSetAutoReload true; load 0; put 0 0 3 (zz 11); load 0 ];
@@ -118,7 +150,19 @@ let gen_history r ~maxlen =
   let chain = rint r 12 = 0 in
   let ops = ref [] in
   let sd = ref (M.cache_init, []) in
-  let push o = ops := o :: !ops; sd := fst (M.cache_spec_step !sd o) in
+  let served : (int, M.n) Hashtbl.t = Hashtbl.create 4 in      (* name -> source id most recently served *)
+  let lastreg : (int, M.n) Hashtbl.t = Hashtbl.create 4 in     (* name -> source id most recently registered *)
+  let allreg : (int * M.n) list ref = ref [] in                (* every (name, source id) registered so far *)
+  let push o =
+    ops := o :: !ops;
+    let (sd', ob) = M.cache_spec_step !sd o in
+    (match o, ob with
+     | M.CLoad n, M.COLoad (M.CServed src, _) -> Hashtbl.replace served (int_of_n n) src
+     | M.CRegister (n, src), M.CORegister true ->
+         Hashtbl.replace lastreg (int_of_n n) src;
+         if not (List.mem (int_of_n n, src) !allreg) then allreg := (int_of_n n, src) :: !allreg
+     | _ -> ());
+    sd := sd' in
   let nl = ref 0 in
   let next_src = ref 0 in
   let fresh () =
@@ -139,13 +183,93 @@ let gen_history r ~maxlen =
     let base = match cur with Some (_, Some m) -> int_of_z m | _ -> 100 + rint r 50 in
     let delta = wpick r [ 3, 0; 4, 1 + rint r 5; 2, - (1 + rint r 5) ] in
     let mt = if rint r 14 = 0 then None else Some (z_of_int (base + delta)) in
-    let src = match cur with Some (src, _) when rint r 5 = 0 -> src | _ -> nn (fresh ()) in
+    (* one id space for loader contents and registrations: now and then a loader gets exactly the
+       text that is registered, or was last served, under that name *)
+    let src = match cur with
+      | Some (src, _) when rint r 5 = 0 -> src
+      | _ ->
+        (match Hashtbl.find_opt lastreg n, Hashtbl.find_opt served n with
+         | Some x, _ when rint r 10 = 0 -> x
+         | _, Some x when rint r 10 = 0 -> x
+         | _ -> nn (fresh ())) in
     push (M.CLoaderPut (nat l, nn n, src, mt)); focus := n in
+  (* names that currently have an entry read from a loader in the template map *)
+  let cached_names () =
+    List.filter (fun n -> match M.cache_lookup (fst !sd).M.cs_cache (nn n) with
+                          | Some e -> e.M.ce_loader <> None | None -> false) [0; 1; 2] in
+  (* a registration; its source is often byte-identical to what the engine already holds or a loader
+     has for that name (identity shortcuts in RegisterString / RegisterTemplate must not skip it), and it
+     is often followed at once by a loader change and something that makes the engine re-read loaders *)
+  let do_reg () =
+    let cn = cached_names () in
+    let n = if cn <> [] && rint r 3 <> 0 then pickl r cn else wpick r [ 2, 0; 3, 1; 3, 2 ] in
+    let s0 = fst !sd in
+    let entry = M.cache_lookup s0.M.cs_cache (nn n) in
+    let cands =
+      (match entry with Some e -> [ e.M.ce_src; e.M.ce_src ] | None -> [])
+      @ (match Hashtbl.find_opt served n with Some x -> [ x ] | None -> [])
+      @ (match Hashtbl.find_opt lastreg n with Some x -> [ x ] | None -> [])
+      @ List.map snd !allreg          (* registered earlier, under this or another name: A, B, A again *)
+      @ List.concat (List.init !nl (fun l -> match file l n with Some (x, _) -> [ x ] | None -> [])) in
+    let cands = List.filter (fun x -> not (M.cache_src_bad x) || rint r 6 = 0) cands in
+    let older = List.filter_map (fun (m, x) -> if m = n && Some x <> Hashtbl.find_opt lastreg n then Some x else None) !allreg in
+    let src =
+      if older <> [] && rint r 3 = 0 then pickl r older                    (* A, B, A again *)
+      else if cands <> [] && rint r 10 < 7 then pickl r cands
+      else nn (fresh ()) in
+    let owner = match entry with Some e -> (match e.M.ce_loader with Some i -> Some (int_of_nat i) | None -> None) | None -> None in
+    push (M.CRegister (nn n, src)); focus := n;
+    if rint r 4 = 0 then begin
+      (* replaced by another source and then registered again: A, B, A *)
+      if rint r 2 = 0 then push (M.CLoad (nn n));
+      push (M.CRegister (nn n, nn (fresh ())));
+      if rint r 2 = 0 then push (M.CLoad (nn n));
+      push (M.CRegister (nn n, src));
+      push (M.CLoad (nn n))
+    end;
+    if rint r 5 < 3 then begin
+      (* the loader that served the name (or any loader) moves on to new content with a later timestamp *)
+      let l = match owner with Some i when rint r 4 <> 0 -> i | _ -> rint r !nl in
+      let base = match file l n with Some (_, Some m) -> int_of_z m | _ -> 100 + rint r 50 in
+      if rint r 6 <> 0 then push (M.CLoaderPut (nat l, nn n, nn (fresh ()), Some (z_of_int (base + 1 + rint r 5))));
+      (match rint r 5 with
+       | 0 -> push (M.CSetCache false)
+       | 1 -> push (M.CSetDevMode true)
+       | 2 -> push (M.CSetAutoReload true)
+       | 3 -> push (M.CSetAutoReload true); push (M.CSetCache true)
+       | _ -> ());
+      push (M.CLoad (nn n));
+      if rint r 3 = 0 then (push (M.CSetCache (rbool r)); push (M.CLoad (nn n)))
+    end in
   let do_del () =
     (* prefer a file that exists *)
     let cands = List.concat (List.init !nl (fun l -> List.filter_map (fun n -> if file l n <> None then Some (l, n) else None) [0; 1; 2])) in
     let (l, n) = if cands <> [] && rint r 5 <> 0 then pickl r cands else (rint r !nl, name ()) in
     push (M.CLoaderDel (nat l, nn n)); focus := n in
+  (* a name cached from a later loader: an earlier loader gains it, then the owner reports a change *)
+  let do_shadow () =
+    let owners = List.filter_map (fun n -> match M.cache_lookup (fst !sd).M.cs_cache (nn n) with
+      | Some e -> (match e.M.ce_loader with Some i when int_of_nat i > 0 -> Some (n, int_of_nat i) | _ -> None)
+      | None -> None) [0; 1; 2] in
+    if owners = [] then begin
+      (* prepare the situation: the name only in the last loader, and load it *)
+      let n = name () and l = !nl - 1 in
+      for j = 0 to l - 1 do if file j n <> None then push (M.CLoaderDel (nat j, nn n)) done;
+      push (M.CLoaderPut (nat l, nn n, nn (fresh ()), Some (z_of_int (100 + rint r 50))));
+      push (M.CLoad (nn n)); focus := n
+    end else begin
+      let (n, i) = pickl r owners in
+      let j = rint r i in
+      push (M.CLoaderPut (nat j, nn n, nn (fresh ()), if rint r 8 = 0 then None else Some (z_of_int (90 + rint r 70))));
+      let base = match file i n with Some (_, Some m) -> int_of_z m | _ -> 100 + rint r 50 in
+      (match rint r 4 with
+       | 0 -> push (M.CLoaderPut (nat i, nn n, nn (fresh ()), None))
+       | 1 -> ()
+       | _ -> push (M.CLoaderPut (nat i, nn n, nn (fresh ()), Some (z_of_int (base + 1 + rint r 4)))));
+      if not (fst !sd).M.cs_auto && rint r 4 <> 0 then push (M.CSetAutoReload true);
+      if not (fst !sd).M.cs_on && rint r 2 = 0 then push (M.CSetCache true);
+      push (M.CLoad (nn n)); focus := n
+    end in
   for _ = 1 to 2 + rint r 2 do add_loader () done;
   for _ = 1 to rint r 4 do do_put () done;
   (match rint r 8 with
@@ -157,13 +281,14 @@ let gen_history r ~maxlen =
   (* total length 5..maxlen, at least three operations after the set-up prefix *)
   let len = max (rrange r 5 maxlen) (List.length !ops + 3) in
   while List.length !ops < len do
-    match wpick r [ 38, `Load; 24, `Put; 7, `Del; 5, `Reg; 6, `Cache; 8, `Auto; 4, `Dev; 2, `Add ] with
+    match wpick r [ 38, `Load; 24, `Put; 7, `Del; 7, `Reg; 4, `Shadow; 6, `Cache; 8, `Auto; 4, `Dev; 2, `Add ] with
     | `Load ->
         let n = if !focus >= 0 && rint r 5 < 3 then !focus else name () in
         push (M.CLoad (nn n)); if rint r 3 = 0 then focus := -1
     | `Put -> do_put ()
     | `Del -> do_del ()
-    | `Reg -> let n = wpick r [ 1, 0; 3, 1; 3, 2 ] in push (M.CRegister (nn n, nn (fresh ()))); focus := n
+    | `Reg -> do_reg ()
+    | `Shadow -> do_shadow ()
     | `Cache -> push (M.CSetCache (rint r 5 < 3))
     | `Auto -> push (M.CSetAutoReload (rint r 3 <> 0))
     | `Dev -> push (M.CSetDevMode (rint r 5 < 2))
@@ -173,7 +298,10 @@ let gen_history r ~maxlen =
 
 let run ~seed ~tier oc =
   let r = mk_rng seed in
-  List.iter (fun (chain, ops) -> emit_history oc r ~stream:"fixed" ~chain ops) fixed;
+  List.iter (fun (chain, ops) ->
+    if List.exists (function M.CRegister _ -> true | _ -> false) ops
+    then Array.iter (fun how -> emit_history ~how oc r ~stream:"fixed" ~chain ops) hows
+    else emit_history oc r ~stream:"fixed" ~chain ops) fixed;
   let n = if tier = "thorough" then 10000 else 500 in
   for i = 1 to n do
     let maxlen = if tier = "thorough" && i mod 10 = 0 then 120 else 40 in
